@@ -7,6 +7,7 @@ import (
 	"io"
 	"os"
 	"sort"
+	"strings"
 
 	"github.com/kercylan98/vivid/internal/cluster"
 	"github.com/kercylan98/vivid/internal/messages"
@@ -236,6 +237,153 @@ func (h *H) capBoundary(a vec, over bool) {
 	})
 }
 
+// session drives ONE family of vector objects through a history of operations (the per-operation cases above
+// build fresh operands every time and cannot see aliasing between a vector and the vectors derived from it:
+// shared maps, shared caches of sorted entries, shared backing arrays). After every step every vector created so
+// far must still show the value it had when it was created, through every observer: the map, SortedEntries,
+// String and its serialised form. Each step is also a model case on the operand's value.
+type sessVec struct {
+	v    cluster.VersionVector
+	want vec    // value at creation
+	how  string // how it was made (for the report)
+}
+
+func (h *H) fingerprintOK(sv sessVec) string {
+	if !same(cluster.XVDump(sv.v), sv.want) {
+		return "its map changed"
+	}
+	se := sv.v.SortedEntries()
+	if len(se) != len(sv.want) {
+		return fmt.Sprintf("SortedEntries has %d entries, the vector %d", len(se), len(sv.want))
+	}
+	for i, e := range se {
+		if c, ok := sv.want[e.Node]; !ok || c != e.Count {
+			return fmt.Sprintf("SortedEntries lists %s:%d, which is not an entry of the vector", e.Node, e.Count)
+		}
+		if i > 0 && !(se[i-1].Node < e.Node) {
+			return "SortedEntries is not sorted"
+		}
+	}
+	if wf(sv.want) {
+		w := messages.NewWriter()
+		if err := cluster.WriteVersionVector(w, sv.v); err != nil {
+			return "it can no longer be written: " + err.Error()
+		}
+		out, err := cluster.ReadVersionVector(messages.NewReader(append([]byte(nil), w.Bytes()...)))
+		if err != nil {
+			return "its serialised form can no longer be read: " + err.Error()
+		}
+		if !same(cluster.XVDump(out), sv.want) {
+			return "its serialised form decodes to a different vector"
+		}
+		if out.Compare(sv.v) != cluster.VersionEqual {
+			return "Read(Write(v)) does not compare Equal to v"
+		}
+	}
+	return ""
+}
+
+func (h *H) session(r *lib.Rand, steps int) {
+	names := []string{"a", "b", "c", "m", "x", "y", "z", "zz", "zzz"}
+	var pool []sessVec
+	var trace []string
+	add := func(v cluster.VersionVector, how string) {
+		pool = append(pool, sessVec{v: v, want: cluster.XVDump(v), how: how})
+		trace = append(trace, fmt.Sprintf("#%d=%s", len(pool)-1, how))
+	}
+	base := vec{}
+	for i := 0; i < r.Intn(5); i++ {
+		base[names[r.Intn(4)]] = uint64(1 + r.Intn(3))
+	}
+	add(cluster.XVNewVV(base), "new")
+	for st := 0; st < steps; st++ {
+		i := r.Intn(len(pool))
+		if r.Bool() { // mostly keep working on recent vectors: chains and siblings rather than a bush
+			i = len(pool) - 1 - r.Intn(min(3, len(pool)))
+		}
+		src := pool[i]
+		ta := tvec(src.want)
+		switch r.Intn(8) {
+		case 7: // a fan: (optionally through the wire) one increment, then several sibling increments of its result,
+			// every new name sorting after all present ones ('~' > letters)
+			cur, ci := src, i
+			if wf(cur.want) && r.Chance(2, 3) {
+				w := messages.NewWriter()
+				if err := cluster.WriteVersionVector(w, cur.v); err == nil {
+					if out, err := cluster.ReadVersionVector(messages.NewReader(append([]byte(nil), w.Bytes()...))); err == nil {
+						add(out, fmt.Sprintf("decode(#%d)", ci))
+						cur, ci = pool[len(pool)-1], len(pool)-1
+					}
+				}
+			}
+			if out, err := cur.v.Increment("~a"); err == nil {
+				h.o.Case("inc", true, lib.L(lib.N(2), tvec(cur.want), lib.S("~a")), lib.Ok(tvec(cluster.XVDump(out))))
+				add(out, fmt.Sprintf("inc(#%d,~a)", ci))
+				cur, ci = pool[len(pool)-1], len(pool)-1
+			}
+			for k := 0; k < 2+r.Intn(2); k++ {
+				name := "~" + string(rune('b'+k))
+				out, err := cur.v.Increment(name)
+				if err != nil {
+					continue
+				}
+				h.o.Case("inc", true, lib.L(lib.N(2), tvec(cur.want), lib.S(name)), lib.Ok(tvec(cluster.XVDump(out))))
+				add(out, fmt.Sprintf("inc(#%d,%s)", ci, name))
+			}
+		case 0, 1: // increment, often with a name that sorts last
+			k := names[r.Intn(len(names))]
+			in := lib.L(lib.N(2), ta, lib.S(k))
+			out, err := src.v.Increment(k)
+			if err != nil {
+				h.o.Case("inc-err", true, in, lib.Err(errCode(err)))
+				continue
+			}
+			h.o.Case("inc", true, in, lib.Ok(tvec(cluster.XVDump(out))))
+			add(out, fmt.Sprintf("inc(#%d,%s)", i, k))
+		case 2: // merge with another member
+			j := r.Intn(len(pool))
+			in := lib.L(lib.N(1), ta, tvec(pool[j].want))
+			m := src.v.Merge(pool[j].v)
+			h.o.Case("merge", true, in, tvec(cluster.XVDump(m)))
+			add(m, fmt.Sprintf("merge(#%d,#%d)", i, j))
+		case 3:
+			add(src.v.Clone(), fmt.Sprintf("clone(#%d)", i))
+		case 4: // through the wire: decoded vectors may carry caches fresh ones do not
+			if !wf(src.want) {
+				continue
+			}
+			w := messages.NewWriter()
+			if err := cluster.WriteVersionVector(w, src.v); err != nil {
+				continue
+			}
+			bs := append([]byte(nil), w.Bytes()...)
+			h.o.Case("write", true, lib.L(lib.N(5), ta), lib.Ok(lib.B(bs)))
+			out, err := cluster.ReadVersionVector(messages.NewReader(bs))
+			if err != nil {
+				h.o.Monitor("roundtrip", lib.L(lib.N(6), lib.B(bs)), "Read(Write(v)) failed in a session: "+err.Error())
+				continue
+			}
+			add(out, fmt.Sprintf("decode(#%d)", i))
+		case 5:
+			in := lib.L(lib.N(3), ta)
+			out := src.v.Compact()
+			h.o.Case("compact", true, in, tvec(cluster.XVDump(out)))
+			add(out, fmt.Sprintf("compact(#%d)", i))
+		case 6: // observers only (they may fill caches)
+			_ = src.v.SortedEntries()
+			_ = src.v.String()
+			_ = src.v.Nodes()
+			trace = append(trace, fmt.Sprintf("observe(#%d)", i))
+		}
+		for j, sv := range pool {
+			if why := h.fingerprintOK(sv); why != "" {
+				h.o.Monitor("operand-modified", lib.L(lib.N(99), lib.S(strings.Join(trace, " "))), fmt.Sprintf("vector #%d (%s) no longer shows the value it was created with: %s; history: %s", j, sv.how, why, strings.Join(trace, " ")))
+				return
+			}
+		}
+	}
+}
+
 func (h *H) read(bs []byte, orig vec, expectOrig bool) {
 	in := lib.L(lib.N(6), lib.B(bs))
 	h.guard("read", in, func() {
@@ -424,6 +572,15 @@ func main() {
 		h.capBoundary(big, false)
 		o.Info["cap_boundary"] = "65536 entries refused, 65535 entries round-trip: implementation-side monitors only"
 	}
+	// histories over one family of vector objects (aliasing between a vector and its derivatives)
+	ns := 150
+	if f.Tier == "thorough" {
+		ns = 5000
+	}
+	for i := 0; i < ns; i++ {
+		h.session(r, 6+r.Intn(14))
+	}
+	o.Info["sessions"] = ns
 	// raw garbage through the reader
 	for i := 0; i < n/2; i++ {
 		bs := r.Bytes(r.Intn(40))
